@@ -42,7 +42,9 @@ def _case(draw, tier):
     adaptive = draw(st.booleans())
     # "epsilon = 1 everywhere" stated as a number, as a function of position, or as a function of position and time
     eps = draw(st.sampled_from(["number", "number", "callable", "timedep"]))
-    return dict(mesh=ms, layer=lay, epsilon=eps,
+    # the device may have been used before, in the same process, for an ordinary driven run with the default contacts
+    earlier = draw(st.integers(0, 3)) == 0
+    return dict(mesh=ms, layer=lay, epsilon=eps, earlier_run=earlier,
                 options=dict(dt_c=draw(gen.logu(-3, 0)) * 0.5, dtmax_c=draw(gen.rf(0.1, 0.5)), adaptive=adaptive, adaptive_window=draw(st.integers(1, 10)),
                              include_screening=scr, screening_tolerance=draw(st.sampled_from([1e-3, 1e-4])),
                              nsteps_nominal=draw(st.integers(30, 60 if tier == "quick" else 200)), save_every=draw(st.integers(1, 25)),
@@ -93,6 +95,19 @@ def check_case(spec):
     dt_max = max(o["dtmax_c"] * dts, dt_init)
     o["solve_time"] = (n_nom - 0.5) * (dt_max if o["adaptive"] else dt_init)
     with sim.workdir():
+        if spec.get("earlier_run"):
+            res.label("device used before for an ordinary driven run (default contacts)")
+            o0 = dict(o, terminal_psi=0.0, solve_time=3.5 * dt_init, adaptive=False, save_every=100)
+            try:
+                import tdgl
+
+                build.make_solver(dev, build.make_options(o0, dev, output_file="earlier.h5"),
+                                  applied_vector_potential=tdgl.sources.ConstantField(0.1 * float(dev.Bc2.to(o0["field_units"]).magnitude), field_units=o0["field_units"],
+                                                                                     length_units=dev.length_units)).solve()
+            except (RuntimeError, ValueError) as exc:
+                if "converge" not in str(exc) and "does not contain any points" not in str(exc):
+                    raise
+                res.label("earlier run did not complete (documented refusal)")
         opts = build.make_options(o, dev, output_file="out.h5")
         ek = spec.get("epsilon", "number")
         res.label(f"epsilon given as {ek}", f"terminal_psi={o.get('terminal_psi')!r}")
